@@ -1118,6 +1118,37 @@ pub fn combo_transforms() -> Vec<(&'static str, fn(&mut PProblem))> {
                 j.tasks[0].places[0].duration = 0.;
             }
         }),
+        ("value", |p| {
+            combo_job(p, "d3").value = Some(5.);
+            p.objectives = Some(json!([{"type": "maximize-value"}, {"type": "minimize-unassigned"}, {"type": "minimize-tours"}, {"type": "minimize-cost"}]));
+        }),
+        ("resource", |p| {
+            for v in p.vehicles.iter_mut() {
+                v.capacity = vec![2];
+                for s in v.shifts.iter_mut() {
+                    s.reloads = vec![PReload { loc: 0, duration: 3., times: vec![], tag: Some("r".into()), resource_id: Some("stock".into()) }];
+                }
+            }
+            p.resources = vec![("stock".into(), vec![3])];
+        }),
+        ("recharge", |p| p.vehicles[1].shifts[0].recharge = Some((210., vec![(2, 5., Some("s2".to_string()))]))),
+        // after everything which sets a capacity or a demand: a second load dimension
+        ("multidim", |p| {
+            for v in p.vehicles.iter_mut() {
+                v.capacity.push(2);
+            }
+            for (_, cap) in p.resources.iter_mut() {
+                cap.push(3);
+            }
+            for j in p.jobs.iter_mut() {
+                let second = if ["d0", "d2", "p0"].contains(&j.id.as_str()) { 1 } else { 0 };
+                for t in j.tasks.iter_mut() {
+                    if !t.demand.is_empty() {
+                        t.demand.push(second);
+                    }
+                }
+            }
+        }),
         // last: the first shift of type a as it is now gets a twin later in the day
         ("two-shifts", |p| {
             let mut s = p.vehicles[0].shifts[0].clone();
